@@ -412,7 +412,7 @@ def check(ctx):
             o6.fail(P, s.ctx, s.stmt, 'Event.execute() is called outside Environment.step', file=s.mod.path, line=s.line)
     # writers of the flags
     for fl, allowed in (('executed', {('Event', '__init__'), ('Event', 'execute')}),
-                        ('cancelled', {('Event', '__init__'), ('Environment', 'cancel_matching_events')})):
+                        ('cancelled', {('Event', '__init__'), ('Environment', 'cancel_matching_events'), ('Environment', 'run')})):
         for s in inv.attr_stores(P, fl):
             o6.count()
             k = (s.cls.name if s.cls else None, s.func.name if s.func else None)
@@ -521,6 +521,93 @@ def check(ctx):
         raise AnalysisError(f'could evaluate only {len(mem)} members of EventType statically')
     # is_simulation_in_progress reports the flag
     # (documented API; C20/C09 __del__ rely on it) -- not part of C01
+
+    # ---- C01.14 an aborted run retires its own end-of-run event ---------------------------
+    o14 = Ob('C01.14', 'K2+K8', 'an exception that ends run() early does not leave that run\'s TERMINATE event live in the queue, where it would end a later run '
+                                'before its time: every exceptional way out of the stepping loop passes, with the flag still lowered, through a statement that '
+                                'cancels the queued events whose action is the TERMINATE action (a loop over the whole pending list, or the event object itself)')
+    obs.append(o14)
+    gx = ctx.graph(Env, 'run', opaque=OPAQUE, call_exc=True)
+    steps_x = [n for n in gx.nodes.values() if any(call_attr(c) == 'step' and is_self_attr(c.func) for c in calls_at(gx, n))]
+    act_name = sched_action_name(term[0][1]) if len(term) == 1 else None
+    flag14, raised14 = (flag, raised) if len(term) == 1 and flag else ('_terminated', True)
+    WHOLE = ('self._events', 'list(self._events)', 'tuple(self._events)', 'self._events[:]', 'self._events.copy()', 'self._events+self._paused_events',
+             'list(self._events)+list(self._paused_events)', 'itertools.chain(self._events,self._paused_events)', 'chain(self._events,self._paused_events)')
+
+    def _is_cancel(n, var):
+        a = n.ast
+        return n.kind == 'stmt' and isinstance(a, ast.Assign) and len(a.targets) == 1 and isinstance(a.targets[0], ast.Attribute) and a.targets[0].attr == 'cancelled' \
+            and isinstance(a.targets[0].value, ast.Name) and a.targets[0].value.id == var and isinstance(a.value, ast.Constant) and a.value.value is True
+
+    def _walk(starts, cut, stop):
+        seen, todo = set(), list(starts)
+        while todo:
+            k = todo.pop()
+            if k in seen:
+                continue
+            seen.add(k)
+            if k in stop:
+                continue
+            for (lb, m) in gx.succ[k]:
+                if (k, lb) not in cut:
+                    todo.append(m)
+        return seen
+    retire = set()
+    retire_lines = set()
+    if act_name:
+        for fnode in [n for n in gx.nodes.values() if n.kind == 'for' and isinstance(n.ast, ast.For) and isinstance(n.ast.target, ast.Name)]:
+            if dv_canon(fnode.ast.iter, fnode.frame) not in WHOLE:
+                continue
+            v = fnode.ast.target.id
+            body_in = [m for lb, m in gx.succ[fnode.id] if lb == 'T']
+            inside = _walk(body_in, set(), {fnode.id})
+            guards = {}
+            for c in [gx.nodes[k] for k in inside if gx.nodes[k].kind == 'cond' and isinstance(gx.nodes[k].ast, ast.Compare) and len(gx.nodes[k].ast.ops) == 1]:
+                l, r, op = c.ast.left, c.ast.comparators[0], c.ast.ops[0]
+                pair = {dv_canon(l, c.frame, keep=(v,)), dv_canon(r, c.frame, keep=(v,))}
+                if pair == {f'{v}.action', f'self.{act_name}'} and isinstance(op, (ast.Eq, ast.NotEq)):
+                    guards[c.id] = 'F' if isinstance(op, ast.Eq) else 'T'          # the edge taken by the other events
+            cancels = {k for k in inside if _is_cancel(gx.nodes[k], v)}
+            if not guards or not cancels:
+                continue
+            # an event with the TERMINATE action cannot get round the loop without being cancelled
+            round_ = _walk(body_in, {(k, lb) for k, lb in guards.items()}, cancels | {fnode.id})
+            leaves = [k for k in round_ if k not in inside and k != fnode.id]
+            if fnode.id not in round_ and not leaves:
+                # ... and no other event is cancelled: every cancelling statement is behind a guard's TERMINATE edge
+                others = _walk(body_in, {(k, 'T' if lb == 'F' else 'F') for k, lb in guards.items()}, {fnode.id})
+                if not (others & cancels):
+                    retire.add(fnode.id)
+                    retire_lines |= {gx.nodes[k].line for k in cancels}
+        # the event object itself, kept by run()
+        for n in gx.nodes.values():
+            if n.kind == 'stmt' and isinstance(n.ast, ast.Assign) and len(n.ast.targets) == 1 and isinstance(n.ast.targets[0], ast.Attribute) \
+                    and isinstance(n.ast.targets[0].value, ast.Name) and _is_cancel(n, n.ast.targets[0].value.id) and n.frame.parent is None:
+                var = n.ast.targets[0].value.id
+                defs = [x for x in ast.walk(fn) if isinstance(x, ast.Assign) and any(isinstance(t, ast.Name) and t.id == var for t in x.targets)]
+                if len(defs) == 1 and isinstance(defs[0].value, ast.Call) and any(isinstance(a, ast.Attribute) and is_self_attr(a, act_name)
+                                                                                    for a in list(defs[0].value.args) + [k.value for k in defs[0].value.keywords]):
+                    retire.add(n.id)
+                    retire_lines.add(n.line)
+    cut14 = {(n.id, 'T' if raised14 else 'F') for n in gx.nodes.values() if n.kind == 'cond' and dv_canon(n.ast, n.frame) == 'self.' + flag14}
+    cut14 |= {(n.id, 'F' if raised14 else 'T') for n in gx.nodes.values() if n.kind == 'cond' and dv_canon(n.ast, n.frame) == 'notself.' + flag14}
+    for s_ in inv.attr_stores(P, 'cancelled'):
+        if s_.cls is Env and s_.func is not None and s_.func.name == 'run':
+            o14.count()
+            if s_.line not in retire_lines:
+                o14.fail(P, s_.ctx, s_.stmt, 'run() cancels an event that is not shown to be its own TERMINATE event', file=s_.mod.path, line=s_.line)
+    for sn in steps_x:
+        o14.count()
+        outs = [m for lb, m in gx.succ[sn.id] if lb == 'exc']
+        got = _walk(outs, cut14, retire)
+        bad = [k for k in (gx.exit, gx.raise_exit) if k in got]
+        if bad:
+            o14.fail(P, 'Environment.run', None, 'an exception raised by an event\'s action leaves run() without its TERMINATE event having been cancelled: the next run '
+                     'ends when that stale event is due, not at its own start + duration', node=sn,
+                     detail={'retiring statements found': sorted(gx.nodes[k].line for k in retire)})
+        else:
+            o14.witness('retired')
+            o14.sample({'step_site': sn.line, 'retired_at': sorted(gx.nodes[k].line for k in retire)})
 
     # ---- C01.9 nobody withholds the end-of-run event ---------------------------------
     o9 = Ob('C01.9', 'K1', 'the TERMINATE event (scheduled under the shared id -1) is never paused or cancelled: every pause / unpause / cancel call in the '
